@@ -1,4 +1,6 @@
 """Shared rules for C05 (closure runs once, join semantics, spawn failure) and C06 (resources released exactly once)."""
+import sys
+
 from ..engine.prov import const_value, strip_casts, walk, walk_deep, show
 from ..engine.atomics import inventory, is_acquire, is_release, target_of
 from ..engine.dtable import canon
@@ -137,3 +139,57 @@ def check_trampoline_a64(ck, prog, rule_c05, rule_c06):
     ck.ob(rule_c06, "a64|exit", x.get("x8") == ("const", 93), detail=f"exit nr {x.get('x8')}")
     i1 = events.index(sysc[1])
     ck.ob(rule_c06, "a64|no-stack-use-after-munmap", not [e for e in events[i1 + 1:] if e[0] in ("stack", "call")], detail="stack touched after munmap")
+
+
+def check_failure_release(ck, prog, rule):
+    """Every resource spawn acquires (join block, boxed closure, stack mapping, TLS block) is released again on every path
+    on which spawn returns an error: a failed spawn leaves nothing behind."""
+    from ..engine.prov import strip_casts
+    from .c12 import mentions
+    T = sys.modules[__name__]
+    sp = prog.fns.get(SPAWN)
+    if sp is None:
+        ck.anchor(rule, "thread::spawn", None)
+        return
+    ctx = prog.ctx(sp)
+    cfg = ctx.cfg
+    resources = {
+        "join-block": (T.call_blocks(ctx, T.TSM + "init"), lambda t: t.get("callee") == T.TSM + "dealloc"),
+        "closure-box": (T.call_blocks(ctx, T.M + "onwed_split_fn_once"), lambda t: (t.get("callee") or "").endswith("Box::<T>::from_raw") or (t.get("callee") or "").endswith("mem::drop")),
+        "stack-mapping": (T.call_blocks_suffix(ctx, "unistd::mmap::mmap"), lambda t: (t.get("callee") or "").endswith("unistd::mmap::munmap")),
+        "tls-block": ([bb for bb in T.call_blocks_suffix(ctx, "Box::<T>::into_raw") ], lambda t: (t.get("callee") or "").endswith("Box::<T>::from_raw")),
+    }
+    ok_blocks = {b["id"] for b in sp["blocks"] for s in b["stmts"] if s["k"] == "assign" and s["dst"]["l"] == 0 and s["rv"]["k"] == "agg" and s["rv"].get("variant") == "Ok"}
+    for name, (creators, is_free) in resources.items():
+        ck.ob(rule, f"anchor|{name}", len(creators) >= 1, fn=T.SPAWN, detail=f"creation site of the {name} not found")
+        for cr in creators[:1]:
+            frees = set()
+            for bb, t in cfg.calls(is_free):
+                args = ctx.args(bb)
+                if args and mentions(args[0], ctx.prov, lambda x: x[0] == "call" and x[3] == cr):
+                    frees.add(bb)
+            # start after the creator succeeded: for `?`-creators the Continue edge, else the return edge
+            t = cfg.term(cr)
+            start = t.get("t")
+            succ_edges = []
+            for sb in cfg.live_blocks():
+                if cfg.term(sb)["k"] != "switch":
+                    continue
+                for e in cfg.succ[sb]:
+                    for f in ctx.edge_facts(e):
+                        if f[0] == "variant" and f[2] in ("Continue", "Ok"):
+                            x = strip_casts(f[1])
+                            if isinstance(x, tuple) and x[0] == "call" and (x[3] == cr or (x[2] and isinstance(strip_casts(x[2][0]), tuple) and strip_casts(x[2][0])[0] == "call" and strip_casts(x[2][0])[3] == cr)):
+                                succ_edges.append(e)
+            starts = [e.dst for e in succ_edges] or [start]
+            r = set()
+            for s0 in starts:
+                r |= cfg.reachable_from(s0, avoid=frees | ok_blocks)
+            leaks = [rb for rb in cfg.return_blocks() if rb in r]
+            path = None
+            if leaks:
+                path = cfg.find_path(starts[0], lambda b: b in leaks, avoid=frees | ok_blocks)
+            ck.ob(rule, f"released-on-failure|{name}", not leaks, fn=T.SPAWN, site=ctx.site(cr),
+                  detail=f"spawn can return an error after acquiring the {name} without releasing it (leak per failed spawn)",
+                  path=cfg.render_path(path) if path else None)
+
